@@ -46,6 +46,16 @@ type Scenario struct {
 	// Extra goroutines started once the index is armed (copiers etc.). They must
 	// bracket their calls with Gate.ActorCalling / ActorReturned.
 	Extra []func(r *Runner)
+	// Policy biases the choice among the gated actors ("" = uniform):
+	//   "starve-merger"    a merge.* waiter is released only when nothing else waits
+	//   "starve-persister" a persist.* waiter is released only when nothing else waits
+	//   "starve-purger"    a purge.* waiter is released only when nothing else waits
+	//   "starve-copier"    a copy.* waiter is released only when nothing else waits (the copy stays open)
+	//   "writers-first"    batch.* waiters are released before anything else
+	//   "writers-last"     batch.* waiters are released only when nothing else waits
+	// Every policy still only chooses among actors that are really waiting, so each
+	// schedule it produces is one the system can exhibit.
+	Policy string
 	// Handlers are extra hook handlers (assertions, recorders) installed before the gate handler.
 	Handlers []mon.Handler
 	// AfterOpen is called once the controlled part is over and the gates are
@@ -180,7 +190,7 @@ func Run(sc *Scenario, obs Observer, final func(r *Runner)) (*Result, error) {
 			continue
 		}
 		idleRounds = 0
-		pick := st.Waiters[sc.G.Intn(len(st.Waiters))]
+		pick := choose(sc.Policy, st.Waiters, sc.G)
 		if pick.Point == "batch.beforeIntro" {
 			r.mu.Lock()
 			ref, ok := r.current[pick.Actor]
@@ -380,3 +390,46 @@ func sortedKeys(m map[string][]string) []string {
 	sort.Strings(out)
 	return out
 }
+
+func choose(policy string, ws []mon.Waiter, g *rng.Rand) mon.Waiter {
+	split := func(prefix string) (in, out []mon.Waiter) {
+		for _, w := range ws {
+			if strings.HasPrefix(w.Point, prefix) {
+				in = append(in, w)
+			} else {
+				out = append(out, w)
+			}
+		}
+		return
+	}
+	pickFrom := func(preferred, rest []mon.Waiter) mon.Waiter {
+		if len(preferred) > 0 {
+			return preferred[g.Intn(len(preferred))]
+		}
+		return rest[g.Intn(len(rest))]
+	}
+	switch policy {
+	case "starve-merger":
+		in, out := split("merge.")
+		return pickFrom(out, in)
+	case "starve-persister":
+		in, out := split("persist.")
+		return pickFrom(out, in)
+	case "starve-purger":
+		in, out := split("purge.")
+		return pickFrom(out, in)
+	case "starve-copier":
+		in, out := split("copy.")
+		return pickFrom(out, in)
+	case "writers-first":
+		in, out := split("batch.")
+		return pickFrom(in, out)
+	case "writers-last":
+		in, out := split("batch.")
+		return pickFrom(out, in)
+	}
+	return ws[g.Intn(len(ws))]
+}
+
+// Policies lists the scheduling policies, for rotation over scenarios.
+var Policies = []string{"", "starve-merger", "starve-copier", "starve-persister", "writers-first", "starve-purger", "", "writers-last", "starve-copier"}
